@@ -20,6 +20,34 @@ def _stmt_of(node):
     return n
 
 
+def rule_tee2(A: Analysis, rep):
+    """Both pipes of a teed task are drained at the same time: the pool that runs the copy loops has at least as many
+    workers as one task submits copy jobs (stdout and stderr).  With fewer, the second pipe is not read until the
+    first reaches EOF; a task that fills the unread pipe (64 KiB) blocks for ever and its output is never recorded."""
+    se = A.fn(RTE + "start_execution")
+    n_jobs = len(A.calls_in(se.node, "OutputHandler.maybe_tee"))
+    subs = [(f, c) for (f, c) in A.all_calls_to("TeeProcessor.tee_pipe")]
+    pools = []
+    for f in A.prog.scan_functions:
+        if f.fq.startswith("conductor.utils.tee."):
+            for c in walk_local(f.node):
+                if isinstance(c, ast.Call) and norm(c.func).endswith("ThreadPoolExecutor"):
+                    pools.append((f, c))
+    if n_jobs < 2 or len(pools) != 1 or not subs:
+        raise AnalysisError("TEE2: anchors not found (maybe_tee calls=%d, pools=%d, tee_pipe callers=%d)" % (n_jobs, len(pools), len(subs)))
+    f, c = pools[0]
+    mw = A.kw(c, "max_workers") or (c.args[0] if c.args else None)
+    val = None if mw is None else A.prog.fold(f.module, mw)
+    ok = mw is None or (isinstance(val, int) and not isinstance(val, bool) and val >= n_jobs) or (mw is not None and norm(mw) == "None")
+    rep.check(ok, "TEE2", "one worker per teed pipe", c, "%d copy jobs per task, pool of %s workers" % (n_jobs, "default" if mw is None else val),
+              "a teed task submits %d copy jobs but the pool has max_workers=%s: the second pipe is not drained while the first is open" % (n_jobs, norm(mw) if mw is not None else "?"))
+    # each copy job runs on the pool (not inline in the caller's thread)
+    tp = A.fn("utils.tee.TeeProcessor.tee_pipe")
+    sub_calls = [x for x in walk_local(tp.node) if isinstance(x, ast.Call) and isinstance(x.func, ast.Attribute) and x.func.attr == "submit"]
+    rep.check(len(sub_calls) == 1 and sub_calls[0].args and norm(sub_calls[0].args[0]) == "self._tee_pipe_run", "TEE2", "copy loop runs on the pool", tp.node, "",
+              "tee_pipe no longer submits the copy loop to the executor")
+
+
 def _open_mode(c: ast.Call):
     m = c.args[1] if len(c.args) > 1 else next((k.value for k in c.keywords if k.arg == "mode"), None)
     return m.value if isinstance(m, ast.Constant) else (None if m is None else "?")
